@@ -1302,7 +1302,7 @@ def _euler_quat(f):
     class _Seq:
         def __init__(self, items): self.items = items
     for st in f.node.body:
-        if isinstance(st, ast.Expr) and isinstance(st.value, ast.Constant) or isinstance(st, ast.Assert):
+        if isinstance(st, ast.Expr) and isinstance(st.value, ast.Constant) or __import__('sa.core', fromlist=['x']).as_assert(st) is not None:
             continue
         if isinstance(st, ast.If) and any(isinstance(c, ast.Call) and dotted(c.func) in ('torch.is_tensor', 'isinstance') for c in ast.walk(st.test)):
             continue                                               # the conversion of a list argument to a tensor
@@ -1381,8 +1381,9 @@ def rule_eulerarg(repo):
                      'the last axis', floor=1)
     f = repo.func(CV, 'euler2SO3')
     p0 = f.pos_params[0]
-    asserts = [n for n in ast.walk(f.node) if isinstance(n, ast.Assert) and any(isinstance(x, ast.Name) and x.id == p0 for x in ast.walk(n.test)) and
-               any(isinstance(x, ast.Constant) and x.value == 3 for x in ast.walk(n.test))]
+    from ..core import as_assert
+    asserts = [n for n in ast.walk(f.node) if as_assert(n) is not None and any(isinstance(x, ast.Name) and x.id == p0 for x in ast.walk(as_assert(n))) and
+               any(isinstance(x, ast.Constant) and x.value == 3 for x in ast.walk(as_assert(n)))]
     if not asserts:
         raise AnalysisError('C11.EULERARG: euler2SO3 no longer asserts the width of its argument')
     first = min(a.lineno for a in asserts)
